@@ -22,12 +22,12 @@ def refine_mechanism(cls: str, v: Dict[str, Any]) -> str:
     d = v["detail"]
     if re.search(r"duplicate argument '(self|kwargs)'", d):
         return "variable-named-self-or-kwargs"
-    if "invalid enum member name" in d or re.search(r"input_value='(_ignore_|_order_|_missing_|_generate_next_value_|mro)'", d):
+    if "invalid enum member name" in d or "member order does not match _order_" in d or re.search(r"input_value='(_ignore_|_order_|_missing_|_generate_next_value_|mro)'", d):
         return "enum-value-reserved-by-python-enum"
     if cls == "names.underscore_digit" and re.search(r"Cannot parse.*\n\s+[0-9]", d, re.S):
         return "name-leading-underscore-then-digit"
     case_text = str((v.get("case") or {}).get("_queries", "")) + str((v.get("case") or {}).get("_sdl", ""))
-    if cls == "names.dunder_like" and "typename__" in d and re.search(r"\btypename__\b\s*[:(]", case_text):  # the input really uses the literal name typename__ and the witness is about it
+    if cls == "names.dunder_like" and ("typename__" in d or "__typename" in d) and re.search(r"\btypename__\b\s*[:(]", case_text):  # the input really uses the literal name typename__ and the witness is about it
         return "user-name-equals-typename-alias"
     if cls == "names.builtin" and ("none_required" in d or "Input should be None" in d) and re.search(r"^\s*(str|int|float|bool)\b\s*[:(]", case_text, re.M):
         return "field-named-str-shadows-builtin-in-annotations"
